@@ -1573,6 +1573,51 @@ theorem tail_abs (m : BufMap) (a b : Nat) (hab : a < b) (hb : b ≤ m.size) (P L
       simp only [setRange, h1]
       split <;> rfl
 
+theorem take1_append_of_ne_nil (M K : List Run) (h : M ≠ []) : (M ++ K).take 1 = M.take 1 := by
+  cases M with
+  | nil => exact absurd rfl h
+  | cons r M => simp
+
+/-- the tail of `may_loss`, in terms of decompositions: the map is colour-equivalent to `P ++ (a, c0) :: T`, the
+list handed to the tail is `A ++ B0 ++ T` with drain start `|A|` and scan start `|A| + |B0|`, and what is kept
+before the scanned part is `Pre ++ first of M0` where `Pre ++ M0 = P ++ [(a, lost)]`, `M0` all `Lost` -/
+theorem mayLoss_tail_branch (m : BufMap) (a b fuel : Nat) (hab : a < b) (hb : b ≤ m.size)
+    (P T A B0 Pre M0 : List Run) (c0 : Colour) (nis : Bool)
+    (hvirt : ∀ x, x < m.size → m.abs x = colourAt (P ++ (a, c0) :: T) Colour.recved x)
+    (hsV : Sorted (P ++ (a, c0) :: T)) (hszV : ∀ r ∈ P ++ (a, c0) :: T, r.1 < m.size)
+    (hc0 : c0 = Colour.flighting ∨ c0 = Colour.lost)
+    (hnpT : ∀ r ∈ T, r.1 < b → r.2 ≠ Colour.pending) (hfuel : T.length < fuel)
+    (hA : A ++ (if nis then [(a, Colour.lost)] else []) = Pre ++ M0.take 1)
+    (hPre : Pre ++ M0 = P ++ [(a, Colour.lost)]) (hM0 : ∀ r ∈ M0, r.2 = Colour.lost) (hM0ne : M0 ≠ []) :
+    ∃ m', mayLoss.mayLossTail m (A ++ B0 ++ T) A.length nis (A.length + B0.length) c0 a b fuel = .ok m' ∧
+      WF m' ∧ m'.size = m.size ∧ ∀ x, m'.abs x = setRange m.abs a b lostOf x := by
+  have hsT : Sorted T := by
+    rw [loss_sorted_append] at hsV
+    exact (loss_sorted_cons.mp hsV.2.1).2
+  obtain ⟨L, R, C, K, nie, hT, hL, hK, hrun, hcase⟩ := mayLossTail_spec m A B0 T nis c0 a b fuel hb hfuel hsT
+    (fun r hr => hszV r (by simp [hr])) hnpT
+  subst hT
+  obtain ⟨c1, c2, c3⟩ := tail_abs m a b hab hb P L R C K c0 nie hvirt hsV hszV hc0 hL hcase
+  generalize hSdef : (if nie then [(b, lastCol L c0)] else []) ++ C = S at *
+  have hCn : P ++ (a, Colour.lost) :: (K ++ S) = Pre ++ ((M0 ++ K) ++ S) := by
+    have : P ++ (a, Colour.lost) :: (K ++ S) = (P ++ [(a, Colour.lost)]) ++ (K ++ S) := by simp
+    rw [this, ← hPre]; simp
+  have hAct : A ++ (if nis then [(a, Colour.lost)] else []) ++ S = Pre ++ ((M0 ++ K).take 1 ++ S) := by
+    rw [hA, take1_append_of_ne_nil M0 K hM0ne]; simp
+  rw [hAct] at hrun
+  rw [hCn] at c1 c2 c3
+  obtain ⟨u1, u2, u3⟩ := act_canon Pre (M0 ++ K) S (by
+    intro r hr
+    rw [List.mem_append] at hr
+    rcases hr with h | h
+    · exact hM0 r h
+    · exact hK r h) c1
+  refine ⟨_, hrun, ⟨u1, fun r hr => c2 r (u2 r hr)⟩, rfl, ?_⟩
+  intro x
+  rw [← c3 x]
+  simp only [BufMap.abs]
+  rw [u3]
+
 -- OPEN: `mayLoss_refines` (the top-level theorem) is not proved.  What is missing:
 --   (1) the three branches of `mayLoss` that only call `mayLostFrom` (`Ok(idx)` on a `Recved` run, `Err(0)`,
 --       `Err(idx)` after a `Recved` run) follow from `mayLostFrom_abs` + `lowerBound_spec` (hypotheses `hP1 hP2 hR`
